@@ -347,7 +347,10 @@ func convertFFIParamsToABIParameters(ctx context.Context, params fftypes.FFIPara
 		var s *Schema
 		// Errors here are unchecked because they cannot be hit if the above JSON Schema validation passed
 		_ = json.Unmarshal(param.Schema.Bytes(), &s)
-		abiParameter, _ := processField(ctx, param.Name, s)
+		abiParameter, err := processField(ctx, param.Name, s)
+		if err != nil {
+			return nil, err
+		}
 
 		tc, err := abiParameter.TypeComponentTreeCtx(ctx)
 		if err != nil {
@@ -424,7 +427,7 @@ func buildABIParameterArrayForObject(ctx context.Context, properties map[string]
 }
 
 func processField(ctx context.Context, name string, schema *Schema) (parameter *abi.Parameter, err error) {
-	if schema.Details == nil {
+	if schema == nil || schema.Details == nil {
 		return nil, i18n.NewError(ctx, signermsgs.MsgInvalidFFIDetailsSchema, name)
 	}
 	parameter = &abi.Parameter{
